@@ -34,6 +34,8 @@ type Refil struct {
 	// refiltered right behind every Refilter of the node under test (SibFilters,
 	// cyclically), and both nodes' filters cost SlowUs per object - each
 	// reconcile overlaps the other's parent listing
+	// Fixtures: the initial objects carry no uid and all the same resourceVersion
+	Fixtures   bool               `json:"fixtures,omitempty"`
 	Sibling    bool               `json:"sibling,omitempty"`
 	SibFilters []world.FilterSpec `json:"sib_filters,omitempty"`
 	SlowUs     int                `json:"slow_us,omitempty"`
@@ -123,6 +125,7 @@ func genC07(g GenCtx) interface{} {
 	sc.Kind = pick(rng, "subf", "subf", "clonef", "subff", "cloneff", "subff-early", "cloneff-early")
 	sc.Stateful = rng.Intn(6) == 0 && !sc.Sibling
 	sc.Touch = rng.Intn(4) == 0
+	sc.Fixtures = rng.Intn(5) == 0
 	sc.Sim = SimCfg{Strategy: randStrategy(rng, libGoroutines), PermuteMaps: true, MaxSteps: 100000, EstSteps: 1500}
 	sc.Sim.Strategy.StallPermille = 0
 	return sc
@@ -136,7 +139,11 @@ func runC07(sci interface{}) {
 	}
 	srv := world.NewServer("pod")
 	for _, o := range sc.Init {
-		srv.Apply(o)
+		if sc.Fixtures {
+			srv.ApplyFixture(o)
+		} else {
+			srv.Apply(o)
+		}
 	}
 	h := world.NewH(srv, world.FilterSpec{}, noRelist, false)
 	h.NoRelist = true
